@@ -27,6 +27,35 @@ def eval_test(e, atom):
     return atom(norm(e), e)
 
 
+def resolve_flags(fn_node, test, depth=2):
+    """copy of `test` in which local flag names are replaced by their (only) defining expression when that is a condition"""
+    import copy
+    defs = {}
+    for st in ast.walk(fn_node):
+        if isinstance(st, ast.Assign) and len(st.targets) == 1 and isinstance(st.targets[0], ast.Name):
+            defs.setdefault(st.targets[0].id, []).append(st.value)
+    def rec(e, d):
+        if isinstance(e, ast.Name) and d > 0 and len(defs.get(e.id, ())) == 1 and isinstance(defs[e.id][0], (ast.Compare, ast.BoolOp, ast.UnaryOp, ast.Call, ast.Constant)):
+            return rec(copy.deepcopy(defs[e.id][0]), d - 1)
+        if isinstance(e, ast.UnaryOp) and isinstance(e.op, ast.Not): e.operand = rec(e.operand, d)
+        elif isinstance(e, ast.BoolOp): e.values = [rec(v, d) for v in e.values]
+        return e
+    return rec(copy.deepcopy(test), depth)
+
+
+def equivalent_to_atom(fn_node, test, atom_text):
+    """True iff `test` (flags resolved) is true exactly when the atom `atom_text` (e.g. 'undo_funcs is None') is true and false when it is
+    false, whatever else holds -- decided by three-valued evaluation, so `not (x is not None)`, `x is None`, `not flag` with
+    `flag = x is not None` are all accepted and `not x`, `bool(x)` are not"""
+    t = resolve_flags(fn_node, test)
+    def mk(val):
+        def atom(text, node):
+            if text == atom_text: return val
+            return None
+        return atom
+    return eval_test(t, mk(True)) is True and eval_test(t, mk(False)) is False
+
+
 class Machine:
     """vars: ordered names.  A state is a tuple of values.
     effect(node, env) -> None (no effect) or dict with optional keys:
